@@ -608,11 +608,11 @@ Section Step2.
     destruct s'; try exact Hdef.
     destruct v'; try exact Hdef.
     - (* Tuple *)
-      destruct (const_index c0) as [n|]; [|exact Hdef].
+      destruct (const_index c0) as [n|]; [|exact Hdef]. destruct (existsb is_starred es); [exact Hdef|].
       pose proof (seq_project_spec es n) as Hp. destruct (seq_project es n) as [x| | |]; cbn [sbind post]; auto.
       destruct Hp as [Hin _]. cbn [wfq] in Hv'. rewrite forallb_forall in Hv'. apply Hv'; assumption.
     - (* List *)
-      destruct (const_index c0) as [n|]; [|exact Hdef].
+      destruct (const_index c0) as [n|]; [|exact Hdef]. destruct (existsb is_starred es); [exact Hdef|].
       pose proof (seq_project_spec es n) as Hp. destruct (seq_project es n) as [x| | |]; cbn [sbind post]; auto.
       destruct Hp as [Hin _]. cbn [wfq] in Hv'. rewrite forallb_forall in Hv'. apply Hv'; assumption.
     - (* Dict *)
